@@ -944,7 +944,7 @@ fn live_pair() -> Case {
         // a third, small instance tells whether discovery works in this environment at all: if it is seen and the large
         // one is not, that is a failure, not an environment without multicast
         let g = InstanceInformation::new("gamma".to_string()).with_ip_address(IpAddr::V4(Ipv4Addr::new(10, 1, 2, 5))).with_port(8104);
-        let mut sg = match ServiceDiscovery::new(g, svc, 60) { Ok(s) => s, Err(_) => return Ok("not-exercised") };
+        let sg = match ServiceDiscovery::new(g, svc, 60) { Ok(s) => s, Err(_) => return Ok("not-exercised") };
         let deadline = Instant::now() + Duration::from_secs(4);
         let mut seen = None;
         let mut baseline = false;
